@@ -91,7 +91,7 @@ fn gen_num(rng: &mut Rng) -> String {
 }
 
 fn gen_strlit(rng: &mut Rng) -> String {
-    const STRS: &[&str] = &["", "a", "hello world", "it's", "say \"hi\"", "back\\slash", "é日😀", "a, b", "x // not a comment", "{}[]()"];
+    const STRS: &[&str] = &["", "a", "hello world", "it's", "say \"hi\"", "back\\slash", "é日😀", "a, b", "x // not a comment", "{}[]()", "line one \nline two", "tab\t\nnext", "cr\r\nlf", " \n ", "trailing blank "];
     rng.pick(STRS).to_string()
 }
 
